@@ -86,4 +86,9 @@ theorem conditional_assign_correct (x0 x1 x2 x3 x4 x5 x6 x7 x8 x9 y0 y1 y2 y3 y4
   unfold conditional_assign_fn
   split <;> simp_all
 
+theorem conditional_swap_correct (x0 x1 x2 x3 x4 x5 x6 x7 x8 x9 y0 y1 y2 y3 y4 y5 y6 y7 y8 y9 c : Int) :
+    conditional_swap_fn x0 x1 x2 x3 x4 x5 x6 x7 x8 x9 y0 y1 y2 y3 y4 y5 y6 y7 y8 y9 c = if c = 0 then [x0, x1, x2, x3, x4, x5, x6, x7, x8, x9, y0, y1, y2, y3, y4, y5, y6, y7, y8, y9] else [y0, y1, y2, y3, y4, y5, y6, y7, y8, y9, x0, x1, x2, x3, x4, x5, x6, x7, x8, x9] := by
+  unfold conditional_swap_fn
+  split <;> simp_all
+
 end Dalek.Proofs.FiatField26
